@@ -16,7 +16,6 @@ NA = {
  'C09': 'TreiberStack/FCStack need the HP singleton or the FC kernel encoded; not encoded',
  'C10': 'FCDeque: flat-combining kernel (thread-local publication records via boost/std TLS, std::deque) beyond the translator; not encoded',
  'C11': 'MSPriorityQueue/FCPriorityQueue concurrent harness not built; only the slot counter is decided (C26)',
- 'C12': 'WeakRingBuffer harness not built in the time available',
  'C13': 'ordered lists over HP/DHP/RCU need the SMR singletons encoded; not encoded',
  'C14': 'pointer-rich hash containers with growth under every interleaving: out of reach of bounded symbolic execution at useful bounds (DESIGN.md 6); addressing arithmetic is decided under C27/C28',
  'C15': 'skip lists / Ellen tree / Bronson AVL under every interleaving: out of reach (DESIGN.md 6)',
@@ -36,6 +35,7 @@ TEXT = {
  'C27': ('model_checking', 'full-width symbolic hash, table size 2^k for k in 0..63 and second bucket through the real regular_hash/dummy_hash/bucket_no/parent_bucket of the HP, nogc and RCU SplitListSet for each bit-reversal algorithm'),
  'C28': ('model_checking', 'symbolic head_bits/array_bits through the real metrics::make for 1/2/4/8-byte hashes, and the cut sequence of traverse on the real splitter for two symbolic hashes: exact tiling and divergence of distinct hashes'),
  'C22': ('model_checking', 'all schedules with at most K-1 context switches (before every atomic operation) of 2-3 threads x 1-2 critical sections on the real spin_lock / reentrant_spin_lock, by coroutine sequentialisation of the clang IR + cbmc'),
+ 'C12': ('model_checking', 'sequential: every script of 5-6 solver-chosen API calls with solver-chosen batch/record sizes on the real WeakRingBuffer<T> (capacity 4, static and dynamic buffer) and WeakRingBuffer<void> (32 bytes) against a FIFO/record model incl. the exact refusal conditions and record bytes; concurrent: producer || consumer, every schedule with at most K-1 context switches, history linearizable to the bounded FIFO (batch) / record FIFO'),
  'C07': ('model_checking', 'all schedules with at most K-1 context switches of 2 threads x 2 solver-chosen enqueue/dequeue operations on the real VyukovMPMCCycleQueue (capacity 2, pre-rotated and pre-filled by solver choice), history checked for linearizability to a bounded FIFO inside the harness'),
 }
 NOTE = 'trusted: clang-14 IR as the encoding of the real code, /verif/ir2c translator (cross-checked on every run against the g++ build of the same harness on random value streams), cbmc 6.11 + SAT back end; bounds and cuts are listed in the evidence file (outside_the_claim) and in DESIGN.md 6'
